@@ -33,16 +33,17 @@ theorem C20_split (w0 : List Nat) (items : List (List Nat × List Nat))
       (items.map (·.1), (items.getLast?.map (·.2)).getD w0) :=
   split_wf w0 items hw0 hitems
 
-/-- **C20.session**: for every key sequence of printable keys and Enters (within the
-terminal's line limit) that ends with a submitting Enter, all submissions together, in
-order, are the quote-aware split of everything typed with each Enter read as one space. -/
+/-- **C20.session**: for every key sequence of printable keys and Enters, of ANY length, that
+ends with a submitting Enter, all submissions together, in order, are the quote-aware split of
+everything typed with each Enter read as one space.  (Until repair of the defect found at the
+excluded point, this theorem carried the hypothesis `keys.length ≤ 4096`: the terminal dropped every
+key beyond 4096 per entry in silence, losing or mutilating statements.) -/
 theorem C20_session (keys : List Nat)
     (hvalid : ∀ k ∈ keys, k = 13 ∨ (isPrintable k = true ∧ k ≠ 13))
-    (hlen : keys.length ≤ maxLineLength)
     (hlast : keys.getLast? = some 13)
     (hrest : Blank (splitStatements (keys.map (fun k => if k = 13 then 32 else k))).2) :
     (run {} keys).flatten = (splitStatements (keys.map (fun k => if k = 13 then 32 else k))).1 :=
-  run_eq_split keys hvalid hlen hlast hrest
+  run_eq_split keys hvalid hlast hrest
 
 /-- **C20.submit**: however a list of well-formed statements is typed — blanks or line
 breaks between and (outside literals) inside them, several per line or one over many
@@ -50,13 +51,12 @@ lines — the console hands the engine exactly those statements, once each, in o
 every literal intact. -/
 theorem C20_submit (keys : List Nat) (w0 : List Nat) (items : List (List Nat × List Nat))
     (hvalid : ∀ k ∈ keys, k = 13 ∨ (isPrintable k = true ∧ k ≠ 13))
-    (hlen : keys.length ≤ maxLineLength)
     (hlast : keys.getLast? = some 13)
     (hw0 : Blank w0) (hitems : ∀ p ∈ items, WFStmt p.1 ∧ Blank p.2)
     (htext : keys.map (fun k => if k = 13 then 32 else k) =
       w0 ++ items.flatMap (fun p => p.1 ++ p.2)) :
     (run {} keys).flatten = items.map (·.1) :=
-  submit_exact keys w0 items hvalid hlen hlast hw0 hitems htext
+  submit_exact keys w0 items hvalid hlast hw0 hitems htext
 
 def codes (s : String) : List Nat := s.toList.map Char.toNat
 
